@@ -113,6 +113,7 @@ theorem replayMSets_append (t : List (Nat × Nat)) (a b : List Chunk) :
     | hdr => simp [replayMSets]
     | walEnt _ _ => simp [replayMSets]
     | walFin _ => simp [replayMSets]
+    | walPlain _ => simp [replayMSets]
     | vEnt _ _ => simp [replayMSets]
     | table _ => simp [replayMSets]
     | mhdr => simp [replayMSets]
